@@ -158,6 +158,7 @@ fn new_shared() -> (Arc<Shared>, Weak<RedeemNode>) {
 
 fn run(ctx: &Ctx, out: &mut Out) {
     leg_c_races(ctx, out);
+    leg_cold_start(ctx, out);
     let bound: usize = ctx.tier.pick(2, 3);
     let stride = 8;
     let horizon = 100_000;
@@ -458,4 +459,140 @@ fn leg_c_races_part(ctx: &Ctx, out: &mut Out, part: usize, parts: usize) {
         out.sample(leg, || (label(), format!("{nprogs} jet programs on 2 threads: no unordered conflicting accesses in C code")));
     }
     ctx.end();
+}
+
+// ---------------------------------------------------------------------------------------------
+// Cold-start pass (SAMPLED, complementary): state that is built lazily on first use and shared by
+// the whole process can only go wrong on the very first concurrent uses, and only code that has a
+// scheduling point inside the window can be steered there by the controlled scheduler. This pass
+// starts a fresh process per trial, lines 8 unmanaged threads up behind a spin barrier before each
+// first use, and compares every thread's result with the result of a single-threaded fresh process.
+// A difference is a true violation (the operations are deterministic); silence proves nothing, and
+// the evidence says so.
+
+fn cold_ops(variant: usize) -> Vec<(String, Box<dyn Fn() -> String + Send + Sync>)> {
+    use simplicity::jet::{Elements, Jet};
+    use simplicity::types::Final;
+    let mut v: Vec<(String, Box<dyn Fn() -> String + Send + Sync>)> = vec![];
+    let fp = |t: &Final| format!("{}:{}", t.bit_width(), t.tmr());
+    // the order of first uses is part of the trial: process-wide tables grown on demand behave
+    // differently when approached from below, from above or in jumps
+    let order: Vec<usize> = match variant % 3 {
+        0 => (0..32).collect(),
+        1 => (0..32).rev().collect(),
+        _ => (0..32).map(|i| (i * 7 + 11) % 32).collect(),
+    };
+    for n in order {
+        v.push((format!("two_two_n({n})"), Box::new(move || Final::two_two_n(n).map(|t| fp(&t)).unwrap_or_else(|e| format!("err:{e:?}")))));
+    }
+    for n in 0..16usize {
+        v.push((format!("buffer8_two_n_plus_one({n})"), Box::new(move || Final::buffer8_two_n_plus_one(n).map(|t| fp(&t)).unwrap_or_else(|e| format!("err:{e:?}")))));
+    }
+    v.push(("ctx8".into(), Box::new(move || fp(&Final::ctx8()))));
+    v.push(("Value::u64/u256".into(), Box::new(|| format!("{}|{}", Value::u64(7).ty(), Value::u256([3; 32]).ty()))));
+    v.push(("Type::two_two_n in a context".into(), Box::new(|| types::Context::with_context(|ctx| (0..12).map(|n| format!("{}", types::Type::two_two_n(&ctx, n).finalize().map(|f| f.tmr().to_string()).unwrap_or_default())).collect::<Vec<_>>().join(",")))));
+    v.push(("jet types".into(), Box::new(|| {
+        let mut h = String::new();
+        for j in Elements::ALL.iter().step_by(7) {
+            h.push_str(&format!("{}>{};", j.source_ty().to_final().tmr(), j.target_ty().to_final().tmr()));
+        }
+        crate::reference::bits::hex(&crate::reference::sha::sha256(h.as_bytes()))
+    })));
+    v.push(("shared program".into(), Box::new(|| fp_redeem(&shared_program()))));
+    v.push(("infer + finalize".into(), Box::new(|| {
+        types::Context::with_context(|ctx| {
+            let w = Arc::<simplicity::ConstructNode>::witness(&ctx, Some(Value::u64(1)));
+            let j = Arc::<simplicity::ConstructNode>::jet(&ctx, &Core::Le64);
+            let p = Arc::<simplicity::ConstructNode>::pair(&w, &w).and_then(|p| Arc::<simplicity::ConstructNode>::comp(&p, &j));
+            match p.map(|p| Arc::<simplicity::ConstructNode>::comp(&p, &Arc::<simplicity::ConstructNode>::unit(&ctx))) {
+                Ok(Ok(p)) => p.finalize_unpruned().map(|r| format!("{}", r.ihr())).unwrap_or_else(|e| format!("err:{e}")),
+                _ => "err:build".into(),
+            }
+        })
+    })));
+    v
+}
+
+/// `mc --cold-body <threads>`: prints one line per (operation, thread)
+pub fn cold_body(threads: usize, variant: usize) {
+    use std::sync::atomic::{AtomicUsize, Ordering};
+    let ops = Arc::new(cold_ops(variant));
+    let arrived = Arc::new(AtomicUsize::new(0));
+    let hs: Vec<_> = (0..threads)
+        .map(|t| {
+            let (ops, arrived) = (ops.clone(), arrived.clone());
+            std::thread::spawn(move || {
+                let mut lines = vec![];
+                for (k, (_, op)) in ops.iter().enumerate() {
+                    // spin barrier: everybody starts operation k together
+                    arrived.fetch_add(1, Ordering::SeqCst);
+                    while arrived.load(Ordering::SeqCst) < (k + 1) * threads {
+                        std::hint::spin_loop();
+                    }
+                    let r = std::panic::catch_unwind(std::panic::AssertUnwindSafe(|| op())).unwrap_or_else(|_| "panic".into());
+                    lines.push(format!("FP {k} {t} {r}"));
+                    let _ = k;
+                }
+                lines
+            })
+        })
+        .collect();
+    for h in hs {
+        for l in h.join().expect("cold body thread") {
+            println!("{l}");
+        }
+    }
+    println!("COLD-BODY ops={} threads={threads}", ops.len());
+}
+
+fn leg_cold_start(ctx: &Ctx, out: &mut Out) {
+    let leg = "cold-start";
+    let trials = ctx.tier.pick(150, 2400);
+    let exe = std::env::current_exe().expect("current exe");
+    let run = |threads: usize, variant: usize| -> Vec<(String, String, String)> {
+        let o = std::process::Command::new(&exe).arg("--cold-body").arg(threads.to_string()).arg(variant.to_string()).output().expect("spawn cold body");
+        let s = String::from_utf8_lossy(&o.stdout).to_string();
+        if !s.lines().any(|l| l.starts_with("COLD-BODY ")) {
+            panic!("cold body did not complete: {:?} {}", o.status, String::from_utf8_lossy(&o.stderr).chars().take(300).collect::<String>());
+        }
+        let names: Vec<String> = cold_ops(variant).into_iter().map(|o| o.0).collect();
+        // "FP k t r" -> (operation name, thread, result)
+        s.lines()
+            .filter(|l| l.starts_with("FP "))
+            .map(|l| {
+                let mut it = l.splitn(4, ' ');
+                let (_, k, t, r) = (it.next(), it.next().unwrap().parse::<usize>().unwrap(), it.next().unwrap_or("?"), it.next().unwrap_or(""));
+                (names[k].clone(), t.to_string(), r.to_string())
+            })
+            .collect()
+    };
+    let mut reference: Option<std::collections::HashMap<String, String>> = None;
+    for trial in 0..trials {
+        if !ctx.mine() {
+            continue;
+        }
+        let label = || format!("fresh process, 8 unmanaged threads, every lazily built table first used by all of them at once (first-use order {}, trial {trial})", ["ascending", "descending", "strided"][trial % 3]);
+        if !ctx.begin(leg, &label) {
+            continue;
+        }
+        // single-threaded fresh process (results do not depend on the order there)
+        let refr = reference.get_or_insert_with(|| run(1, 0).into_iter().map(|(n, _, r)| (n, r)).collect());
+        out.evaluations += 1;
+        let mut bad: Option<String> = None;
+        for (name, t, r) in run(8, trial) {
+            out.transitions += 1;
+            if Some(&r) != refr.get(&name) && bad.is_none() {
+                bad = Some(format!("operation `{name}` on thread {t} returns `{r}`; a single-threaded fresh process returns `{}`", refr.get(&name).cloned().unwrap_or_default()));
+            }
+        }
+        match bad {
+            None => {
+                out.outcome("cold-start:same");
+                out.sample(leg, || (label(), "every operation on every thread equals the single-threaded result".into()));
+            }
+            Some(d) => out.violation("race:cold-start-result-differs", leg, label(), d),
+        }
+        ctx.end();
+    }
+    out.note(format!("cold-start: {trials} sampled trials (fresh process each), complementary to the exhaustive schedule exploration; not counted in states"));
 }
